@@ -96,7 +96,7 @@ func runLoops(sc LoopScenario, dir string) world.Verdict {
 			return world.Fail("C08/loops/start", "aggregator does not start: %v", err)
 		}
 		p.DA.KindOf = sw.KindOf
-		seq, err := single.NewSequencerWithQueueSize(p.Ctx, world.Logger(), p.Raw, p.DA, []byte(p.Opts.ChainID), o.BlockTime, nil, true, 1000)
+		seq, err := single.NewSequencerWithQueueSize(p.Ctx, world.Logger(), p.Raw, p.DA, []byte(p.Opts.ChainID), o.BlockTime, seqMetrics(), true, 1000)
 		if err != nil {
 			return world.Fail("C08/loops/start", "sequencer does not start: %v", err)
 		}
@@ -207,4 +207,11 @@ func runLoops(sc LoopScenario, dir string) world.Verdict {
 func TestC08Loops(t *testing.T) {
 	dir := t.TempDir()
 	world.Run(t, "C08", "loops-through-outage", world.Scale(40, 200), genLoops, func(sc LoopScenario) world.Verdict { return runLoops(sc, dir) })
+}
+
+// seqMetrics are the sequencing layer's metrics as the applications pass them when instrumentation is off
+// (discard collectors; the sequencer then goes through its whole metrics path, as in a real node).
+func seqMetrics() *single.Metrics {
+	m, _ := single.NopMetrics()
+	return m
 }
